@@ -332,7 +332,7 @@ func (e *Engine) assignTo(st *State, l ast.Expr, v Value, t types.Type) {
 	case *ast.SelectorExpr:
 		p := e.placeOf(st, n)
 		if p.isAddr {
-			e.storeAt(st, p.addr, p.typ, v)
+			e.storePlace(st, p, v)
 			return
 		}
 		// field of a detached struct value held in a local variable: rebuild the value
@@ -733,7 +733,9 @@ func (e *Engine) havocLoopTargets(st *State, body ast.Node, extra ...ast.Node) {
 
 func (e *Engine) havocHeap(st *State, why string) {
 	oldAlloc := st.alloc
-	st.HI = e.fresh("HI_"+why, SArr)
+	e.epochCtr++
+	st.epoch = e.epochCtr
+	st.H = map[string]T{}
 	st.Mem = e.fresh("Mem_"+why, SHeap)
 	st.alloc = e.fresh("alloc_"+why, SInt)
 	e.assume(st, Ge(st.alloc, oldAlloc), "allocation pointer is monotone")
